@@ -493,7 +493,7 @@ var undecidedClauses = map[string][]string{
 	"C07": {"the averages function itself (bounded under C09)"},
 	"C08": {"termination", "a healthy environment implies SyncBlock returns nil for the whole block (UNIQUE-key wedging, F6)"},
 	"C09": {"GetPegNetRateAverages beyond the stated bound"},
-	"C10": {"eventual recovery (liveness)", "completeness of row iteration in the storage leaves (rows.Err, F14)"},
+	"C10": {"eventual recovery (liveness)", "completeness of row iteration in the storage leaves beyond the bounded fault check (F14 fixed, F14b open)"},
 	"C11": {"grading algorithms of the pegnet modules", "binding of the SPR staker id to the signing key (F10)"},
 	"C12": {"numeric value of the float64 tolerance computation (float operations are uninterpreted in GetAssetRates/GetAssetRatesV0)"},
 	"C13": {"completeness: every other well-formed conversion is executed"},
